@@ -37,6 +37,16 @@ Parameter / regime coverage added by the audit of the signatures:
   the step variants were exercised at unit scale only; both in-place settings.
 * mode sizes 300 .. 1025 (thorough 2048) in all orthogonalize / step clauses.
 * pivots given as numpy.int64 / numpy.int32 (accepted with the same result; out-of-range ones rejected).
+
+Input forms (form audit):
+* `C04.forms.orthogonalize`  same_tensor / orthonormal / pivot_norm / ranks / stab_pair with the core list as cores of dtype
+  float32 / int64 / int32 / mixed between the cores (int64 next to non-integer float64 cores, float32 next to float64),
+  read-only cores, read-only non-contiguous views, a tuple (`gen.tt_form1`); pivot as numpy.int64 / int32 / 0-d int array;
+  call written positionally (Y, k, use_stab), by keyword in another order, numpy.bool_ flag.  Reference = float64 image of
+  what is passed; float32 cores in float32 accuracy (the unchanged library factorises them in float32).
+* `C04.step.contract` `form=` / `iform=`: the single steps on the same forms (in place too - the two adjacent list elements
+  are replaced, read-only / integer cores are never written to; a tuple only with inplace=False), step index as numpy
+  integers, inplace passed positionally.
 """
 import math
 import numpy as np
@@ -49,7 +59,9 @@ BUDGET = (50, 500)
 BOUNDS = ('d in {2,3,4} (thorough up to 6), modes 1..4, ranks 1..4 (thorough 6) incl. over-ranked, 4 defect kinds, '
           'orders C/F/V, EVERY pivot, stab on/off, exponent patterns 0 / +-100 / +300 / -150 / alternating per core (stab); extreme per-core scales in a separate clause, every step '
           'index of the single-step variants x inplace on/off (also at per-core 2^+-100 / 2^+-300); d = 30..90 (thorough 130) with '
-          'own QR oracles and |p| up to 5200; mode sizes up to 1025 (thorough 2048); numpy integer pivots')
+          'own QR oracles and |p| up to 5200; mode sizes up to 1025 (thorough 2048); numpy integer pivots; input forms: 11 core-list '
+          'forms (float32 / int64 / int32 / mixed / read-only / views / tuple) x 5 (thorough 8) configurations x every pivot x stab, '
+          'single steps x inplace on the same forms, pivot / index as numpy.int64 / int32 / 0-d array, positional / keyword calls')
 
 EPS = np.finfo(float).eps
 DEFECTS = ('none', 'dup', 'zerocore', 'zeroslice')
@@ -86,16 +98,42 @@ class Case:
     pass
 
 
+EPS32 = float(np.finfo(np.float32).eps)
+# input forms of the call made by run() - set (and restored) by `C04.forms.orthogonalize` only: form of the core list
+# (`gen.tt_form1`), of the pivot (`gen.num_form1`), the call form ('pos' / 'kw' / 'npbool'), and the rounding unit of the
+# checks (eps32 for float32 cores, which the unchanged library factorises in float32)
+_FORM = {'form': None, 'kform': None, 'call': None, 'eps': EPS}
+F32_FORMS = ('f32', 'mix_f32a', 'mix_f32b', 'tuple_f32_ro')
+
+
+def _formed(Y, form):
+    """(Y in the input form, its float64 image) - per-core exponents are not combined with forms."""
+    Y0 = gen.tt_form1_values(gen.tt_image1(Y), form)
+    return gen.tt_form1(Y0, form), Y0
+
+
 def run(n, r, seed, kind, order, defect, exps, k, stab):
     c = Case()
     c.Y, c.Y0, c.S = make(n, r, seed, kind, order, defect, exps)
+    if _FORM['form']:
+        if c.S or exps:
+            raise ValueError('input forms are used at unit scale')
+        c.Y, c.Y0 = _formed(c.Y, _FORM['form'])
     c.d = len(n)
     c.D0 = gen.dense(c.Y0)
     c.scale = float(np.prod([np.linalg.norm(G) for G in c.Y0]))
     c.rin = [1] + [G.shape[2] for G in c.Y]
-    c.tol = 64.0 * c.d * max(c.rin) * EPS * c.scale
+    c.tol = 64.0 * c.d * max(c.rin) * _FORM['eps'] * c.scale
     snap = gen.snapshot(c.Y)
-    out = teneva.orthogonalize(c.Y, k, use_stab=stab)
+    kk = gen.num_form1(k, _FORM['kform']) if k is not None else None
+    if _FORM['call'] == 'pos':
+        out = teneva.orthogonalize(c.Y, kk, stab)
+    elif _FORM['call'] == 'kw':
+        out = teneva.orthogonalize(use_stab=stab, k=kk, Y=c.Y)
+    elif _FORM['call'] == 'npbool':
+        out = teneva.orthogonalize(c.Y, kk, np.bool_(stab))
+    else:
+        out = teneva.orthogonalize(c.Y, kk, use_stab=stab)
     if gen.snapshot(c.Y) != snap:
         return None, FAIL('input changed')
     if stab:
@@ -104,6 +142,11 @@ def run(n, r, seed, kind, order, defect, exps, k, stab):
         c.Z, c.p = out
     else:
         c.Z, c.p = out, 0
+    if _FORM['form'] and isinstance(c.Z, list) and all(isinstance(G, np.ndarray) and G.dtype.kind in 'fiu' for G in c.Z):
+        Zi = gen.tt_image1(c.Z)                # the dtype of the result cores is not part of the property
+        if gen.shares(c.Z, c.Y):
+            return None, FAIL('result shares memory with the input')
+        c.Z = Zi
     msg = gen.wf(c.Z, n)
     if msg:
         return None, FAIL('result not well-formed: ' + msg)
@@ -167,7 +210,7 @@ def orthonormal(n, r, seed, kind, order, defect, exps, k, stab):
         G = c.Z[j]
         M = _gram_left(G) if j < c.k else _gram_right(G)
         dev = float(np.abs(M - np.eye(M.shape[0])).max())
-        if not dev <= 64 * EPS * max(G.shape[0] * G.shape[1], G.shape[1] * G.shape[2]):
+        if not dev <= 64 * _FORM['eps'] * max(G.shape[0] * G.shape[1], G.shape[1] * G.shape[2]):
             return FAIL(f'core {j} ({"left" if j < c.k else "right"} of pivot {c.k}): Gram deviates from I by {dev:.3e}')
     return PASS if c.d > 1 else TRIVIAL('')
 
@@ -223,6 +266,22 @@ def stab_pair(n, r, seed, kind, order, defect, exps, k):
         if isinstance(plain, tuple) or gen.wf(plain, n):
             return FAIL('use_stab=False does not return a plain TT list')
     return PASS
+
+
+
+@clause('C04.forms.orthogonalize', funcs=OF + ('core.core_stab',))
+def forms_orthogonalize(check, form, kform, call, params):
+    """The clauses same_tensor / orthonormal / pivot_norm / ranks / stab_pair (`check`) with the arguments in other INPUT
+    FORMS: core list with cores of dtype float32 / int64 / int32 / mixed between the cores, read-only cores and views, a
+    tuple (`gen.tt_form1`); the pivot as numpy.int64 / int32 / 0-d int array; the call written positionally
+    (Y, k, use_stab), by keyword in another order, with numpy.bool_ as flag.  Reference: the float64 image of what is
+    passed; float32 cores in float32 accuracy (the unchanged library factorises them in float32)."""
+    fn = {'same_tensor': same_tensor, 'orthonormal': orthonormal, 'pivot_norm': pivot_norm, 'ranks': ranks, 'stab_pair': stab_pair}[check]
+    _FORM.update(form=form, kform=kform, call=call, eps=EPS32 if form in F32_FORMS else EPS)
+    try:
+        return fn(**params)
+    finally:
+        _FORM.update(form=None, kform=None, call=None, eps=EPS)
 
 
 @clause('C04.orthogonalize.stab_extreme_cores', funcs=('transformation.orthogonalize', 'core.core_stab'))
@@ -404,7 +463,7 @@ def orth_many_modes(d, nk, r, seed, kind, k, stab, emax, epat='rand'):
 # ----------------------------------------------------------------------------- single steps
 
 @clause('C04.step.contract', funcs=('transformation.orthogonalize_left', 'transformation.orthogonalize_right'))
-def step_contract(n, r, seed, kind, order, defect, side, i, inplace, exps=None):
+def step_contract(n, r, seed, kind, order, defect, side, i, inplace, exps=None, form=None, iform=None):
     """One left / right step at mode i: same tensor, core i orthonormal, new rank = min(rows, old rank) <= old rank,
     only the two adjacent cores differ; inplace=True: same list object with exactly those two elements replaced;
     inplace=False: input untouched, nothing shared."""
@@ -413,11 +472,19 @@ def step_contract(n, r, seed, kind, order, defect, side, i, inplace, exps=None):
     fn = teneva.orthogonalize_left if side == 'left' else teneva.orthogonalize_right
     j = i + 1 if side == 'left' else i - 1            # the neighbour receiving the weight
     D = gen.dense(Y)
+    EPSf = EPS
+    if form:            # input forms of the core list (dtypes, read-only, views, tuple - a tuple cannot work in place) / of i
+        Y, Yim = _formed(Y, form)
+        D = gen.dense(Yim)
+        EPSf = EPS32 if form in F32_FORMS else EPS
+        if inplace and isinstance(Y, tuple):
+            return SKIP('a tuple cannot be changed in place')
+    i_arg = gen.num_form1(i, iform)
     scale = float(np.prod([np.linalg.norm(G) for G in Y]))
     rin = [1] + [G.shape[2] for G in Y]
     orig = list(Y)
     snaps = [gen.snapshot(G) for G in Y]
-    Z = fn(Y, i, inplace=inplace) if inplace is not None else fn(Y, i)
+    Z = (fn(Y, i_arg, inplace=inplace) if not form else fn(Y, i_arg, inplace)) if inplace is not None else fn(Y, i_arg)
     if any(gen.snapshot(G) != s for G, s in zip(orig, snaps)):
         return FAIL('an input core array was overwritten')
     if inplace:
@@ -438,17 +505,19 @@ def step_contract(n, r, seed, kind, order, defect, side, i, inplace, exps=None):
         for t in range(d):
             if t not in (i, j) and not np.array_equal(Z[t], orig[t]):
                 return FAIL(f'core {t} differs although only {sorted((i, j))} may change')
+    if form and isinstance(Z, list) and all(isinstance(G, np.ndarray) and G.dtype.kind in 'fiu' for G in Z):
+        Z = gen.tt_image1(Z)                    # untouched cores keep their dtype: not part of the property
     msg = gen.wf(Z, n)
     if msg:
         return FAIL('result not well-formed: ' + msg)
     err = float(np.linalg.norm(gen.dense(Z) - D))
-    tol = 64.0 * d * max(rin) * EPS * scale
+    tol = 64.0 * d * max(rin) * EPSf * scale
     if not err <= tol:
         return FAIL(f'tensor changed by {err:.3e} > {tol:.3e}')
     G = Z[i]
     M = _gram_left(G) if side == 'left' else _gram_right(G)
     dev = float(np.abs(M - np.eye(M.shape[0])).max())
-    if not dev <= 64 * EPS * max(G.shape[0] * G.shape[1], G.shape[1] * G.shape[2]):
+    if not dev <= 64 * EPSf * max(G.shape[0] * G.shape[1], G.shape[1] * G.shape[2]):
         return FAIL(f'core {i} not orthonormal: Gram deviates by {dev:.3e}')
     rk = [1] + [G.shape[2] for G in Z]
     b = i + 1 if side == 'left' else i          # the bond between the two cores
@@ -570,6 +639,34 @@ def cases(tier, seed):
                 for i in range(len(n) - 1):
                     yield 'C04.step.contract', dict(base, side='left', i=i, inplace=inplace)
                     yield 'C04.step.contract', dict(base, side='right', i=i + 1, inplace=inplace)
+    # input forms: core list dtypes / read-only / views / tuple, pivot / step index as numpy integers, call forms
+    fcfg = [([3, 2], [1, 2, 1]), ([2, 3, 2], [1, 2, 3, 1]), ([3, 2, 2, 3], [1, 3, 4, 3, 1]), ([2, 1, 3], [1, 2, 2, 1]), ([2, 2, 2], [1, 4, 4, 1])]
+    if big:
+        fcfg += [([2, 2, 2, 2, 2], [1, 2, 3, 3, 2, 1]), ([4, 4], [1, 1, 1]), ([1, 2, 1, 2], [1, 1, 2, 2, 1])]
+    kforms, calls = (None, 'i64', 'i32', 'a0i'), (None, 'pos', 'kw', 'npbool')
+    fj = 0
+    for si, (n, r) in enumerate(fcfg):
+        d = len(n)
+        for fi, form in enumerate((None,) + gen.TT_FORMS1):
+            kinds = ('int',) if form in ('i64', 'i32') else (('gauss', 'int') if big else (('gauss', 'int')[(si + fi) % 2],))
+            for kind in kinds:
+                for defect in (DEFECTS if big else (DEFECTS[(si + fi) % 4],)):
+                    base = dict(n=n, r=r, seed=700 + si, kind=kind, order='CFV'[(si + fi) % 3], defect=defect, exps=None)
+                    for k in list(range(d)) + [None]:
+                        fj += 1
+                        kf, cl = (kforms[fj % 4] if k is not None else None), calls[(fj // 4 + fj) % 4]
+                        if form is None and kf is None and cl is None:
+                            cl = 'pos'
+                        for stab in (False, True):
+                            for check in ('same_tensor', 'orthonormal', 'pivot_norm', 'ranks'):
+                                yield 'C04.forms.orthogonalize', dict(check=check, form=form, kform=kf, call=cl, params=dict(base, k=k, stab=stab))
+                        yield 'C04.forms.orthogonalize', dict(check='stab_pair', form=form, kform=kf, call=cl, params=dict(base, k=k))
+                    if form is None:
+                        continue
+                    for inplace in (False, True):
+                        for i in range(d - 1):
+                            yield 'C04.step.contract', dict(base, side='left', i=i, inplace=inplace, form=form, iform=kforms[(i + fi) % 4])
+                            yield 'C04.step.contract', dict(base, side='right', i=i + 1, inplace=inplace, form=form, iform=kforms[(i + fi + 1) % 4])
     # many modes
     for d_, nk_, r_ in ((30, 3, 3), (64, 2, 4), (90, 2, 3)) + (((130, 2, 2), (40, 4, 5)) if big else ()):
         for kind in ('canon', 'gauss'):
